@@ -233,6 +233,62 @@ func run(c *mc.Ctx) {
 		}
 	})
 
+	// Long vectors: n copies of one value (and an alternating pair) for every n up to 300.  A Sum or Product that
+	// defers its reduction is exact for short vectors and wraps the limb capacity only after dozens of unreduced addends.
+	longVals := []*big.Int{new(big.Int).Sub(new(big.Int).Lsh(big.NewInt(1), 255), big.NewInt(1)), new(big.Int).Sub(ref.L, big.NewInt(1)), new(big.Int).Add(new(big.Int).Mul(big.NewInt(7), ref.L), big.NewInt(3)), core[len(core)-1], big.NewInt(1)}
+	maxN := c.Pick(300, 700)
+	c.Par("long-vectors", len(longVals)*(maxN+1), func(w *mc.W, i int) {
+		v, n := longVals[i/(maxN+1)], i%(maxN+1)
+		alt := longVals[(i/(maxN+1)+1)%len(longVals)]
+		vs := make([]*scalar.Scalar, n)
+		sum, prod := big.NewInt(0), big.NewInt(1)
+		for k := range vs {
+			x := v
+			if k%3 == 2 {
+				x = alt
+			}
+			vs[k] = sc(x)
+			sum = ref.SAdd(sum, x)
+			prod = ref.SMul(prod, x)
+		}
+		cas := map[string]string{"value": v.Text(16), "n": fmt.Sprint(n)}
+		if got := val(scalar.New().Sum(vs)); got.Cmp(sum) != 0 {
+			w.Fail("Scalar.Sum/long", fmt.Sprintf("Sum of %d values (%x, every third %x) = %x want %x", n, v, alt, got, sum), cas)
+		}
+		if got := val(scalar.New().Product(vs)); got.Cmp(prod) != 0 {
+			w.Fail("Scalar.Product/long", fmt.Sprintf("Product of %d values (%x, ...) = %x want %x", n, v, got, prod), cas)
+		}
+		// repeated in-place accumulation, the way callers build sums themselves
+		acc := scalar.New()
+		for k := range vs {
+			acc.Add(acc, vs[k])
+		}
+		if got := val(acc); got.Cmp(sum) != 0 {
+			w.Fail("Scalar.Add/accumulate", fmt.Sprintf("accumulating %d values with Add gives %x want %x", n, got, sum), cas)
+		}
+		if n <= 64 && ref.SMod(v).Sign() != 0 && ref.SMod(alt).Sign() != 0 {
+			in := make([]*scalar.Scalar, n)
+			for k := range in {
+				in[k] = scalar.New().Set(vs[k])
+			}
+			ret := val(scalar.New().BatchInvert(in))
+			if ret.Cmp(ref.SInv(prod)) != 0 {
+				w.Fail("Scalar.BatchInvert/long", fmt.Sprintf("BatchInvert of %d values returned %x want %x", n, ret, ref.SInv(prod)), cas)
+			}
+			for k := range in {
+				x := v
+				if k%3 == 2 {
+					x = alt
+				}
+				if val(in[k]).Cmp(ref.SInv(x)) != 0 {
+					w.Fail("Scalar.BatchInvert/elem", fmt.Sprintf("BatchInvert of %d values: element %d is not the inverse", n, k), cas)
+					break
+				}
+			}
+		}
+		w.Eval("long-vectors", n >= 2)
+	})
+
 	// Decoders on the 256-bit alphabet + the decision tree of the comparison.
 	w256 := alph.Wide(c.Seed, 256, false)
 	w256 = append(w256, decisionTree()...)
